@@ -149,18 +149,22 @@ def _table_out(t):
     return [[str(c), [float(v) for v in t[c].values]] for c in t.columns]
 
 
+def _A(x, role, case):
+    """The nested list `x` as the array handed to verde/xarray, in a memory layout chosen per role (C, Fortran-ordered, strided)."""
+    a = np.array(x, dtype=float)
+    return C.mkarr(a, list(a.shape), role + case["op"][-70:])
+
+
 def impl(case):
     a = case["args"]
     fn = case["fn"]
     if fn in ("make_grid", "make_grid_table"):
         east, north, extras, data, names, dims, exnames = a
-        coords = tuple(np.array(x) for x in [east, north] + list(extras))
-        dat = None if data is None else tuple(np.array(d) for d in data)
+        coords = tuple(_A(x, f"c{i}", case) for i, x in enumerate([east, north] + list(extras)))
+        dat = None if data is None else tuple(_A(d, f"d{i}", case) for i, d in enumerate(data))
         if dat is not None and len(dat) == 1:
             dat = dat[0]
         nm = names if (names is None or len(names) != 1) else names[0]
-        for x in coords + (() if data is None else tuple(np.array(d) for d in data)):
-            x.setflags(write=False)
         ds = C.call(vd.make_xarray_grid, coords, dat, nm, dims=tuple(dims), extra_coords_names=exnames)
         if C.is_err(ds):
             return ds
@@ -179,16 +183,16 @@ def impl(case):
             else:
                 coords[dims[0]] = np.array(north)
         for k, v in extras:
-            coords[k] = (tuple(dims), np.array(v))
+            coords[k] = (tuple(dims), _A(v, "x" + str(k), case))
         if form == "dataset":
-            g = xr.Dataset({k: (tuple(dims), np.array(v)) for k, v in vars_}, coords=coords)
+            g = xr.Dataset({k: (tuple(dims), _A(v, "v" + str(k), case)) for k, v in vars_}, coords=coords)
         else:
-            g = xr.DataArray(np.array(vars_[0][1]), coords=coords, dims=tuple(dims), name=None if form == "unnamed" else vars_[0][0])
+            g = xr.DataArray(_A(vars_[0][1], "v0", case), coords=coords, dims=tuple(dims), name=None if form == "unnamed" else vars_[0][0])
         t = C.call(vd.grid_to_table, g)
         return t if C.is_err(t) else _table_out(t)
     if fn == "to1d":
         E, N, extras = a
-        r = C.call(vd.utils.meshgrid_to_1d, tuple(np.array(x) for x in [E, N] + list(extras)))
+        r = C.call(vd.utils.meshgrid_to_1d, tuple(_A(x, f"m{i}", case) for i, x in enumerate([E, N] + list(extras))))
         if C.is_err(r):
             return r
         if len(r) != 2 + len(extras):
